@@ -576,6 +576,62 @@ fn g8() -> Vec<Case> {
 }
 
 /// every family (C10, C02: programs that end in errors belong to the comparison)
+/// G10: the members the interpreter looks up by itself obey the same rule as every other member access - own
+/// fields first, then the class's methods.  `for` asks its iterable for `iter` and the iterator for `next`;
+/// the library's collect / reduce / map do the same.  A class that is a complete iterator of its own (methods
+/// `iter` and `next`), one derived from Iter with a `next` of its own, and one derived from Iter with no
+/// `next` at all get an own field `next` (a closure over a counter, a bound built-in method of another
+/// iterator, a bound method of another instance) or an own field `iter`, and are consumed by `for`, an
+/// explicit `next()` loop, collect, reduce, map, and by taking the member as a value.  The elements are the
+/// field's, by construction.
+fn g10() -> Vec<crate::expect::Expect> {
+    use crate::expect::Expect;
+    let mut out = Vec::new();
+    let classes = [
+        ("own_methods", "#[constructor(new)]\nclass It {\n  fn iter(self) { return self; }\n  fn next(self) { return StopIter.new(); }\n}\n"),
+        ("derived_from_Iter", "#[constructor(new), derive(Iter)]\nclass It {\n  fn next(self) { return StopIter.new(); }\n}\n"),
+        ("only_iter", "#[constructor(new), derive(Iter)]\nclass It {}\n"),
+    ];
+    let fields: [(&str, &str, Vec<&str>); 4] = [
+        ("closure over a counter", "var n = 0;\nit.next = || { n += 1; if n > 3 { return StopIter.new(); } return n * 10; };\n", vec!["10", "20", "30"]),
+        ("bound built-in method of another iterator", "var src = [7, 8, 9].iter();\nit.next = src.next;\n", vec!["7", "8", "9"]),
+        ("bound method of another instance", "#[constructor(new)]\nclass Src { fn next(self) { self.k += 1; if self.k > 2 { return StopIter.new(); } return \"s${self.k}\"; } }\nvar other = Src.new();\nother.k = 0;\nit.next = other.next;\n", vec!["s1", "s2"]),
+        ("field iter returning another iterator", "it.iter = || [4, 5].iter();\n", vec!["4", "5"]),
+    ];
+    let consumers = ["for", "explicit next", "collect", "reduce", "map", "taken as a value"];
+    for (cname, class) in classes {
+        for (fname, field, elems) in &fields {
+            for kname in consumers {
+                if cname == "own_methods" && ["collect", "reduce", "map"].contains(&kname) {
+                    continue;
+                }
+                if fname.starts_with("field iter") && kname == "taken as a value" {
+                    continue;
+                }
+                let (consumer, mut expected): (&str, Vec<String>) = match kname {
+                    "for" => ("for x in it { print(x); }\n", elems.iter().map(|e| e.to_string()).collect()),
+                    "explicit next" => ("var i = it.iter();\nvar v = i.next();\nvar guard = 0;\nwhile !v.derives(StopIter) && guard < 10 { print(v); v = i.next(); guard += 1; }\n", elems.iter().map(|e| e.to_string()).collect()),
+                    "collect" => ("print(it.collect());\n", vec![format!("[{}]", elems.join(", "))]),
+                    "reduce" => ("print(it.reduce(|a, e| [a, e], nil));\n", vec![elems.iter().fold("nil".to_string(), |a, e| format!("[{}, {}]", a, e))]),
+                    "map" => ("print(it.map(|e| [e]).collect());\n", vec![format!("[{}]", elems.iter().map(|e| format!("[{}]", e)).collect::<Vec<_>>().join(", "))]),
+                    _ => ("var f = it.next;\nprint(f());\nprint(it.next());\n", vec![elems[0].to_string(), elems[1].to_string()]),
+                };
+                expected.push("end".into());
+                let src = format!("{}var it = It.new();\n{}{}print(\"end\");\n", class, field, consumer);
+                out.push(Expect {
+                    family: "G10_members_the_interpreter_looks_up_itself",
+                    request: proto::Request { op: "run".into(), snippets: vec![src], fuel: Some(1_000_000), ..Default::default() },
+                    out: vec![expected],
+                    end: vec!["ok".into()],
+                    describe: json!({"class": cname, "field": fname, "consumer": kname}),
+                    nontrivial: true,
+                });
+            }
+        }
+    }
+    out
+}
+
 pub fn cases_all(thorough: bool) -> Vec<Case> {
     g1(thorough).into_iter().chain(g2()).chain(g3()).chain(g4()).chain(g5()).chain(g6()).chain(g7()).chain(g8()).collect()
 }
@@ -654,6 +710,13 @@ pub fn run(ctx: &Ctx) -> Report {
         let n = cases.len();
         let st = crate::expect::run_expect(ctx, &ctx.runner_checked, cases.into_iter(), &|_e, _r| None, &|_e, _p| None);
         report.cov("G9_programs", json!(n));
+        report.violations.extend(st.violations);
+    }
+    {
+        let cases = g10();
+        let n = cases.len();
+        let st = crate::expect::run_expect(ctx, &ctx.runner_checked, cases.into_iter(), &|_e, _r| None, &|_e, _p| None);
+        report.cov("G10_programs", json!(n));
         report.violations.extend(st.violations);
     }
     report
